@@ -8,6 +8,7 @@ import (
 	"path/filepath"
 	"regexp"
 	"runtime"
+	"runtime/debug"
 	"sync"
 	"time"
 	"testing"
@@ -43,6 +44,10 @@ func checkProductionRegistry(r *ev.Run) {
 
 func TestCheck(t *testing.T) {
 	r := ev.Start("C18", "fault_enumeration")
+	// the frontiers hold many small maps: collect eagerly and cap the runtime well below the box's share
+	// (bin/check exports GOGC=600 / GOMEMLIMIT=10GiB; this harness wants less)
+	debug.SetGCPercent(100)
+	debug.SetMemoryLimit(6 << 30)
 	r.SetBudget(ev.Pick(r, 140, 1500))
 	r.Assume = append(r.Assume,
 		"one batch commit is atomic (backend contract, C15); a crash is modelled between commits of the db.KeyValueStore seam (faultdb over db/memory)",
@@ -59,9 +64,16 @@ func TestCheck(t *testing.T) {
 	// ---------- part (b)
 	var shapes []shapeSpec
 	addShape := func(n int, pat string, pruned int) {
-		shapes = append(shapes, shapeSpec{Name: fmt.Sprintf("%d blocks %s pruned<%d", n, pat, pruned), Shape: mkShape(n, pat), Pruned: pruned})
+		shapes = append(shapes, shapeSpec{Name: fmt.Sprintf("%d blocks %s pruned<%d", n, pat, pruned), Shape: mkShape(n, pat), Pruned: pruned, PruneR: -1})
+	}
+	// chains on which every process start also chooses the --prune-mode flag (real history-prune migration, retaining
+	// `retained` blocks below the L1 head = tip): the cutoff tip-retained lies above the blocks where an interrupted
+	// statedifflength run leaves its checkpoint (its 8 workers take blocks 0..7 first).
+	addPruneShape := func(n int, pat string, retained int) {
+		shapes = append(shapes, shapeSpec{Name: fmt.Sprintf("%d blocks %s prune-mode toggled, retain %d", n, pat, retained), Shape: mkShape(n, pat), PruneR: retained})
 	}
 	if r.Quick() {
+		addPruneShape(14, "dense", 3)
 		for _, n := range []int{0, 1, 10, 11, 36} {
 			addShape(n, "mixed", 0)
 		}
@@ -70,6 +82,10 @@ func TestCheck(t *testing.T) {
 		addShape(23, "mixed", 7)
 	} else {
 		// special shapes first so that a budget cut never drops them
+		addPruneShape(14, "dense", 3)
+		addPruneShape(14, "mixed", 0)
+		addPruneShape(23, "mixed", 6)
+		addPruneShape(5, "dense", 9) // chain shorter than the retention window: the prune migration is a no-op
 		for _, n := range []int{12, 36} {
 			addShape(n, "sparse", 0)
 			addShape(n, "lead-empty", 0)
